@@ -1582,7 +1582,7 @@ class Time(Atomic):
             when = _TaskManager().get_time()
         tup = time.localtime(when)
 
-        self.value = (tup[3], tup[4], tup[5], int((when - int(when)) * 100))
+        self.value = (tup[3], tup[4], tup[5], min(int(round((when % 1.0) * 100)), 99))
 
         return self
 
